@@ -18,10 +18,10 @@ pub fn def() -> PropDef {
         genome_len: 160,
         quick_cases: 600_000,
         thorough_cases: 40_000_000,
-        rule: "case = (field in {Fq,Fr}, a, b with a relation, exponent e); operands from canonical boundaries, stored-limb (Montgomery) boundary patterns, powers of two, small, uniform; non-trivial = some operand is from a boundary/limb class or the pair is related (not uniform x uniform x independent); distinct by (field,a,b,e)",
+        rule: "case = (field in {Fq,Fr}, a, b with a relation, exponent e); operands from canonical boundaries, stored-limb (Montgomery) boundary patterns, powers of two, small, uniform, and derived pairs whose *stored product / square* is a boundary pattern (b = t/a, a = sqrt(t)) or whose Montgomery quotient digits are boundary limbs; non-trivial = some operand is from a boundary/limb class or the pair is related (not uniform x uniform x independent); distinct by (field,a,b,e)",
         required: crate::runner::req(&[
             "field:q", "field:r", "rel:equal", "rel:negation", "rel:stored-sum-2^256", "add:stored-carry", "add:stored-sum=p",
-            "mul:final-sub", "a:limb-mont", "a:limb-canon", "a:canon-boundary", "inverse:zero",
+            "mul:final-sub", "a:limb-mont", "a:limb-canon", "a:canon-boundary", "inverse:zero", "rel:product-stored-target", "rel:square-stored-target", "rel:quotient-digit-target", "mul:quotient-digit-zero", "mul:quotient-digit-ff", "sqr:pre=2^256+small",
         ]),
         enumerate: None,
         enumerate_note: "",
@@ -69,6 +69,27 @@ macro_rules! field_case {
         }
         if a.is_zero() {
             $info.class("inverse:zero");
+        }
+        {
+            // the Montgomery quotient digits of a*b (the per-round reduction multipliers), from the model
+            let r256 = &zp::c().two256;
+            let mq = (((&sa * &sb) % r256) * crate::gen::neg_inv_p(m)) % r256;
+            let d = mq.to_u64_digits();
+            let digit = |i: usize| d.get(i).copied().unwrap_or(0);
+            if (1..4).any(|i| digit(i) == 0) && !sa.is_zero() && !sb.is_zero() {
+                $info.class("mul:quotient-digit-zero");
+            }
+            if (0..4).any(|i| digit(i) == u64::MAX) {
+                $info.class("mul:quotient-digit-ff");
+            }
+            // pre-subtraction value of the square a*a
+            let us = mont_pre(&sa, &sa, m);
+            if us >= zp::c().two256 {
+                $info.class("sqr:pre>=2^256");
+                if (&us - &zp::c().two256) < BigUint::from(512u32) {
+                    $info.class("sqr:pre=2^256+small");
+                }
+            }
         }
 
         let la: $T = $of_big(&a);
